@@ -119,8 +119,10 @@ def kernels_layer(ctx, model_ok):
         checks = [('sqrt', o['sqrt'], 8 * EPS), ('log', o['log'], log_tol), ('logref', o['logref'], 1e-9)]
         if o['exp'] is not None:
             checks.append(('exp', o['exp'], 8 * EPS * (1 + abs(l1) + abs(l2))))
-        # documented in the source: the pow kernel "loses precision when lam1 -> lam2" (cancellation ~ eps/d)
-        checks.append(('pow', o['pow'], 16 * EPS / d + 8 * EPS))
+        # since /repo 28ca86b the pow kernel uses expm1(m*log1p(x))/x near lam1 = lam2 (no cancellation any more: no eps/d term);
+        # what remains is the accuracy of XLA's CPU log1p (~120 ulp, same floor as for the log kernel) and of lam_big**(m-1),
+        # evaluated as exp((m-1) ln lam_big): relative rounding ~ |m-1| |ln lam_big| eps
+        checks.append(('pow', o['pow'], 512 * EPS + 16 * EPS * (1 + abs(M - 1) * abs(math.log(max(l1, l2))))))
         if abs(l1 - l2) <= 0.05 * min(l1, l2):
             checks.append(('taylor', o['taylor'], 1e-9))
         for kind, got, rtol in checks:
